@@ -224,7 +224,7 @@ static long dval(int r, long i, int o)
     case 1:
       return 1 + (r + i) % 3; /* products stay below 3^17 */
     case 4:
-      return (long)((r * 2654435761u + i * 40503u) & 0x7fffffff);
+      return (long)((r * 73 + i * 19 + 5) & 65535);
     default:
       return (long)((r * 37 + i * 11) % 101) - 50;
   }
